@@ -130,7 +130,9 @@ def classify(prog, before: bytes, after: bytes, why):
 
 LAYOUTS = [{}, {"nonascii": True}, {"tabs": True}, {"nonascii": True, "tabs": True}, {"no_final_newline": True}, {"crlf": True}, {"nonascii": True, "per_test": 3},
            {"mixed_eol": 2}, {"mixed_eol": 3, "first_crlf": True}, {"odd_breaks": True}, {"odd_breaks": True, "nonascii": True, "per_test": 2},
-           {"bom": True}, {"bom": True, "nonascii": True, "per_test": 2}]
+           {"bom": True}, {"bom": True, "nonascii": True, "per_test": 2},
+           # files that black would change at their END only (no final line end, blank lines or a form feed behind the last statement): not formatter-clean
+           {"eof": "strip", "force_clean": True}, {"eof": "blank_lines", "force_clean": True}, {"eof": "form_feed", "force_clean": True}, {"eof": "strip", "force_clean": True, "crlf_eof": True}]
 
 
 def gen_case(rng, i):
@@ -153,13 +155,18 @@ def run_case(prog):
     elif prog["setup"] == "fmtcmd":
         kw["format_command"] = "/venv/bin/python -m black -q -"
     clean = False
-    if (prog.get("clean") or prog["layout"].get("mixed_eol")) and not prog["layout"].get("crlf"):
+    if (prog.get("clean") or prog["layout"].get("mixed_eol") or prog["layout"].get("force_clean")) and not prog["layout"].get("crlf"):
         try:
             import black
             src = black.format_str(src, mode=black.FileMode())
             clean = True
         except Exception:  # noqa
             pass
+    eof = prog["layout"].get("eof")
+    if eof and clean:
+        src = src.rstrip("\n") + {"strip": "", "blank_lines": "\n\n\n", "form_feed": "\n\x0c\n"}[eof]
+        if prog["layout"].get("crlf_eof"):
+            src = src.replace("\n", "\r\n")
     m = prog["layout"].get("mixed_eol")
     if m:
         # mixed line endings (black does not consider such a file clean: it would normalise them to the ending of the first line)
